@@ -198,7 +198,10 @@ def case_u_cell(ctx, p):
         mon.nontriv(U, c)
     for mod, k, m in ((ctx.T, oracle.TWO_PI, "tools"), (ctx.L, 1.0, "laue")):
         Bo = oracle.upper_triangular_factor(oracle.recip_metric(c) * k * k)
-        ubi = mod.u_to_ubi(U.tolist() if p["as_list"] else U, c)
+        fk = int(round(c[1] * 1e6)) % 3
+        ubi = mod.u_to_ubi(gen.as_form(U, fk) if p["as_list"] else U, gen.as_form(c, fk + 1))
+        if p["as_list"]:
+            ubi = gen.as_form(ubi, fk + 2)       # the UBI handed on as list / tuple / array
         # the same array is handed from one function to the next, as a user would
         U2 = mod.ubi_to_u(ubi)
         mon.close("workload:%s.ubi_to_u(u_to_ubi)=U" % m, U2, U, rtol=0, atol=ATOL)
@@ -233,7 +236,7 @@ def case_ub(ctx, p):
         # forward error of a backward-stable split is ~cond*eps <= 1e-10 here
         mon.close("workload:%s.ub_to_u_b=(Q,T)" % m, U, Q, rtol=0, atol=ATOL)
         mon.close("workload:%s.ub_to_u_b=(Q,T)" % m, B, T, rtol=ATOL)
-        U2, B2 = mod.ub_to_u_b(M.tolist())
+        U2, B2 = mod.ub_to_u_b(gen.as_form(M, int(abs(M[0, 0]) * 1e6)))
         mon.close("workload:%s.ub_to_u_b(list)" % m, U2, U, rtol=0, atol=1e-12)
 
 
